@@ -1374,6 +1374,9 @@ func (x *Exec) closeLoop(fr *Frame, li *LoopInfo, from *ssa.BasicBlock, st *Stat
 		spec = &LoopSpec{}
 	}
 	pos := x.loopPos(fr, li)
+	if fr == fr.top {
+		x.backEdgeAsserts(fr, li, from, st)
+	}
 	// the ghost iteration counter has advanced by one on the back edge
 	if it := fr.iter[li.Ordinal]; it != nil {
 		fr.iter[li.Ordinal] = iAdd(it, IntLit(1))
